@@ -162,6 +162,19 @@ def check_reuse(case, ctx):
     P_ref = [ec.mul(k) for k in ks]
     objs = [pt(p) for p in P_ref]
     ctx.nontrivial()
+
+    def result_is(got, want, what):
+        """a point the library RETURNED is checked through everything it can be asked: coordinates, parity
+        and all three encodings (a result object may have inherited state from its operands)"""
+        require(co(got) == want, "reuse/" + what)
+        if want is None:
+            return
+        require(got.parity == want[1] % 2, f"reuse/{what}:parity")
+        require(got.sec(True) == ec.sec(want, True) and got.sec(False) == ec.sec(want, False)
+                and got.xonly() == ec.xonly(want), f"reuse/{what}:encoding_of_result",
+                f"result {want[0]:x}: sec={got.sec(True).hex()}")
+        require(co(S256Point.parse(got.sec(True))) == want, f"reuse/{what}:result_does_not_round_trip")
+
     for what, a, b in case["ops"]:
         ctx.label("op:" + what)
         A, o = P_ref[a], objs[a]
@@ -172,24 +185,25 @@ def check_reuse(case, ctx):
         elif what == "xonly":
             require(o.xonly() == ec.xonly(A), "reuse/xonly")
         elif what == "even_point":
-            e = o.even_point()
-            require(co(e) == (A[0], A[1] if A[1] % 2 == 0 else P - A[1]), "reuse/even_point")
+            result_is(o.even_point(), (A[0], A[1] if A[1] % 2 == 0 else P - A[1]), "even_point")
             require(co(o) == A, "reuse/even_point_mutated_operand")
         elif what == "add_other":
-            require(co(o + objs[b]) == ec.add(A, P_ref[b]), "reuse/add")
+            result_is(o + objs[b], ec.add(A, P_ref[b]), "add")
             require(co(o) == A and co(objs[b]) == P_ref[b], "reuse/add_mutated_operand")
         elif what == "rmul":
-            require(co(case["mult"] * o) == ec.mul(case["mult"] * ks[a]), "reuse/rmul")
+            result_is(case["mult"] * o, ec.mul(case["mult"] * ks[a]), "rmul")
             require(co(o) == A, "reuse/rmul_mutated_operand")
         elif what == "neg":
-            require(co(-1 * o) == ec.neg(A), "reuse/neg")
+            result_is(-1 * o, ec.neg(A), "neg")
         elif what == "eq":
             require((o == objs[b]) == (A == P_ref[b]) and (o != objs[b]) == (A != P_ref[b]), "reuse/eq")
         elif what == "add_int":
-            require(co(o + case["mult"]) == ec.add(A, ec.mul(case["mult"])), "reuse/add_int")
+            result_is(o + case["mult"], ec.add(A, ec.mul(case["mult"])), "add_int")
         elif what == "double":
-            require(co(o + o) == ec.mul(2 * ks[a]), "reuse/double")
+            result_is(o + o, ec.mul(2 * ks[a]), "double")
     require(co(G) == ec.G, "reuse/generator_mutated")
+    for o, A in zip(objs, P_ref):
+        require(o.sec(True) == ec.sec(A, True) and o.xonly() == ec.xonly(A), "reuse/operand_encoding_changed")
 
 
 # --------------------------------------------------------------- small fields
